@@ -856,3 +856,136 @@ func (s *storeRun) checkAfterReopen(how string) {
 	s.checkListings(how, true)
 	s.checkDBLevel(how)
 }
+
+// checkDBMirrorAll / checkDBMirror: write-through check on the persistent
+// nodes of a cluster run. Whatever a running node's store hands out - every
+// event of every creator up to the index it knows, every block - must be in
+// the database itself (DB-level readers, no cache), with the same hash / body
+// / signatures, and the database's topological listing must hold exactly the
+// events the node knows. A store whose writes stop reaching the database (in
+// any of the node's lives: after a bootstrap, after a re-join...) fails here
+// long before the cache evicts anything.
+func (c *Cluster) checkDBMirrorAll() {
+	for _, n := range c.nodes {
+		if c.failed("C16") != nil {
+			return
+		}
+		c.checkDBMirror(n)
+	}
+}
+
+func (c *Cluster) checkDBMirror(n *SimNode) {
+	if n == nil || !n.running() || n.ffDone || n.maintenance || n.isObserver || n.wiped {
+		return
+	}
+	bs, ok := n.store.(*hg.BadgerStore)
+	if !ok {
+		return
+	}
+	store := n.core().Hashgraph().Store
+	known := store.KnownEvents()
+	rep := store.RepertoireByID()
+	ids := make([]uint32, 0, len(known))
+	for id := range known {
+		ids = append(ids, id)
+	}
+	sort.Slice(ids, func(i, j int) bool { return ids[i] < ids[j] })
+	total := 0
+	for _, id := range ids {
+		p := rep[id]
+		if p == nil {
+			continue
+		}
+		last := known[id]
+		total += last + 1
+		// the most recent events are the ones a broken write path loses first
+		from := 0
+		if last > 12 {
+			from = last - 12
+		}
+		for i := from; i <= last; i++ {
+			h, err := store.ParticipantEvent(p.PubKeyString(), i)
+			if err != nil {
+				continue
+			}
+			dh, err := bs.SimDBParticipantEvent(p.PubKeyString(), i)
+			if err != nil || dh != h {
+				c.violate("C16", "write-through", "event-index-not-in-database", "node %d (epoch %d): the store lists event %s as number %d of creator %s, the database has %s (%v)", n.idx, n.epoch, short(h), i, short(p.PubKeyString()), short(dh), err)
+				return
+			}
+			ev, err := bs.SimDBGetEvent(h)
+			if err != nil || ev.Hex() != h {
+				c.violate("C16", "write-through", "event-not-in-database", "node %d (epoch %d): event %s (number %d of creator %s) is known to the node but cannot be read from its database: %v", n.idx, n.epoch, short(h), i, short(p.PubKeyString()), err)
+				return
+			}
+		}
+	}
+	topo, err := bs.SimDBTopologicalEvents(0, total+10)
+	if err == nil && len(topo) != total {
+		c.violate("C16", "write-through", "topological-listing-gap", "node %d (epoch %d): the database's topological listing yields %d events, the node knows %d", n.idx, n.epoch, len(topo), total)
+		return
+	}
+	for i := 0; i <= store.LastBlockIndex(); i++ {
+		b, err := store.GetBlock(i)
+		if err != nil {
+			continue
+		}
+		db, err := bs.SimDBGetBlock(i)
+		if err != nil {
+			c.violate("C16", "write-through", "block-not-in-database", "node %d (epoch %d): block %d is in the store but cannot be read from its database: %v", n.idx, n.epoch, i, err)
+			return
+		}
+		same := bodyDigest(&b.Body) == bodyDigest(&db.Body) && len(b.Signatures) == len(db.Signatures)
+		if same {
+			for k, v := range b.Signatures {
+				if db.Signatures[k] != v {
+					same = false
+				}
+			}
+		}
+		if !same {
+			c.violate("C16", "write-through", "block-in-database-differs", "node %d (epoch %d): block %d in the database differs from the block the store hands out (body or %d / %d signatures)", n.idx, n.epoch, i, len(db.Signatures), len(b.Signatures))
+			return
+		}
+	}
+	// rounds and frames (the node re-reads them after eviction just the same)
+	for r := 0; r <= store.LastRound(); r++ {
+		ri, err := store.GetRound(r)
+		if err != nil {
+			continue
+		}
+		dr, err := bs.SimDBGetRound(r)
+		if err != nil {
+			c.violate("C16", "write-through", "round-not-in-database", "node %d (epoch %d): round %d is in the store but cannot be read from its database: %v", n.idx, n.epoch, r, err)
+			return
+		}
+		a, _ := ri.Marshal()
+		b, _ := dr.Marshal()
+		if !bytes.Equal(a, b) {
+			c.violate("C16", "write-through", "round-in-database-differs", "node %d (epoch %d): round %d in the database differs from the round the store hands out", n.idx, n.epoch, r)
+			return
+		}
+	}
+	for i := 0; i <= store.LastBlockIndex(); i++ {
+		b, err := store.GetBlock(i)
+		if err != nil {
+			continue
+		}
+		f, err := store.GetFrame(b.RoundReceived())
+		if err != nil {
+			continue
+		}
+		df, err := bs.SimDBGetFrame(b.RoundReceived())
+		if err != nil {
+			c.violate("C16", "write-through", "frame-not-in-database", "node %d (epoch %d): the frame of round %d (block %d) is in the store but cannot be read from its database: %v", n.idx, n.epoch, b.RoundReceived(), i, err)
+			return
+		}
+		h1, _ := f.Hash()
+		h2, _ := df.Hash()
+		if !bytes.Equal(h1, h2) {
+			c.violate("C16", "write-through", "frame-in-database-differs", "node %d (epoch %d): the frame of round %d in the database differs from the frame the store hands out", n.idx, n.epoch, b.RoundReceived())
+			return
+		}
+	}
+	c.stats.probe("c16-write-through-checked")
+}
